@@ -46,6 +46,12 @@ func (v *regView) MaxLines() int { return v.lines() }
 func regKeys(regs *state.RegMap) []expr.Key {
 	keys := make([]expr.Key, 0, regs.Len())
 	for k := range regs.Values() {
+		// Instruction pointer is visualized by cursor in the code listing
+		// and it's not counted into height of the view.
+		if k == expr.IPKey {
+			continue
+		}
+
 		keys = append(keys, k)
 	}
 
